@@ -414,6 +414,33 @@ func (c *Ctx) sectionOrder(dv *deepView, fn *ssa.Function, parts []listItem) {
 		}
 	}
 	if sec == nil {
+		// the list of parts filled by index stores instead of append: not enumerated by the list evaluator
+		indexed := false
+		for _, f := range withAnon(fn) {
+			instrsOf(f, func(i ssa.Instruction) {
+				if st, ok := i.(*ssa.Store); ok && inLoop(f, st.Block()) {
+					if ia, isIA := st.Addr.(*ssa.IndexAddr); isIA {
+						if _, isK := ir.ConstInt(ia.Index); !isK {
+							switch st.Val.Type().Underlying().(type) {
+							case *types.Interface, *types.Pointer, *types.Struct:
+								indexed = true
+							}
+						}
+					}
+				}
+			})
+		}
+		for k := range parts {
+			if parts[k].loop {
+				indexed = true // a per-section part of a shape the evaluator does not open (not a constructor call)
+			}
+		}
+		if indexed {
+			c.R.Infof("J2.order", fname, "section-parts", c.Pos(fn.Pos()), "not decided for this shape: the hashed parts are stored by index into a preallocated list (the list evaluator follows append)")
+			c.R.Infof("J2.order", fname, "section-sort", c.Pos(fn.Pos()), "not decided for this shape (see section-parts)")
+			c.R.Infof("J2.order", fname, "skip-empty", c.Pos(fn.Pos()), "not decided for this shape (see section-parts)")
+			return
+		}
 		c.R.Violf("J2.order", fname, "section-parts", c.Pos(fn.Pos()), "each section with raw data contributes one part inside the section loop", "no part is appended inside a loop")
 		return
 	}
